@@ -466,11 +466,11 @@ func c03Run(r *vkit.Run) {
 			}
 		}
 	}
-	// end to end: every sequence of up to three records over six (two instants, messages that repeat, an empty one)
+	// end to end: every sequence of up to three records over eight (two instants, messages that repeat, an empty one, one that is not UTF-8)
 	if r.Shard == 3%max(r.NShards, 1) {
 		var small []c03Rec
 		for k, t := range []time.Time{time.Date(2024, 1, 2, 3, 4, 0, 1, time.UTC), time.Date(2024, 1, 2, 3, 4, 2, 0, time.UTC)} {
-			for j, m := range []string{"same", "", "same "} {
+			for j, m := range []string{"same", "", "same ", "caf\xe9 \xff\xfe"} {
 				small = append(small, c03Rec{Stream: byte(1 + (k+j)%2), TS: t.Format(time.RFC3339Nano), NS: t.UnixNano(), Msg: m})
 			}
 		}
